@@ -148,3 +148,15 @@ Theorem C14_function_representation_on_the_indexed_layout_is_the_specifications_
                           (map Z.of_nat (snd (split_labels isr sts dl_all))) (conts_of sts vals) == q.
 Proof. exact function_representation_on_the_indexed_layout. Qed.
 Print Assumptions C14_function_representation_on_the_indexed_layout_is_the_specifications_read.
+
+(* ---- the indexer assumed above IS the one the state-space code builds ------------------------------------------------------ *)
+From LCM Require Import Model.StateSpace Proofs.C17_StateSpace Proofs.C17_IndexerTie.
+(* when the remaining restricted-state combinations are those with a filter-passing choice combination (C17), the indexer of   *)
+(* the theorem above is the array create_indexers_and_segments returns on the filter mask (C17's model): rank among the         *)
+(* remaining combinations, -1 elsewhere                                                                                         *)
+Theorem C14_indexer_of_the_capstone_is_the_state_space_indexer :
+  forall (isr : string -> bool) (sts : list (string * grid)) (mask : arr bool) (n : nat),
+  rsizes isr sts = state_shape_of mask n ->
+  indexer_array isr (feasible_states mask n) sts = state_indexer (create_indexers_and_segments mask n).
+Proof. exact indexer_of_the_capstone_is_the_codes. Qed.
+Print Assumptions C14_indexer_of_the_capstone_is_the_state_space_indexer.
